@@ -1,25 +1,64 @@
 package main
 
 // Goroutines, channels, sync primitives and virtual time.
-// Stage 1: sequential semantics (single goroutine); blocking forever = deadlock.
+//
+// Every interpreted goroutine runs on its own Go goroutine, but only the holder of the baton
+// runs. At each visible operation (channel op, select, lock, WaitGroup, atomic op, go, Sleep,
+// goroutine exit) the scheduler takes a decision "who runs next"; the decision is part of the
+// path's decision vector, so interleavings are explored by the same replay-forking machinery,
+// under a preemption bound. Time is a virtual clock that advances only when every goroutine is
+// blocked. Without verifrt.Concurrent the spawned goroutines are parked and never run.
 
 import (
+	"fmt"
 	"go/types"
+	"sort"
 
 	"golang.org/x/tools/go/ssa"
 )
 
 type Goroutine struct {
-	id  int
-	top *frame
+	id      int
+	top     *frame
+	resume  chan struct{}
+	done    bool
+	waiting func() bool // nil = runnable
+	killed  bool
+	fn      Value
+	args    []Value
+	started bool
+	exited  chan struct{}
 }
 
-type Scheduler struct{}
+type Scheduler struct {
+	gs          []*Goroutine
+	enabled     bool
+	bound       int // preemption bound
+	preemptions int
+	timers      []*vtimer
+	abort       interface{}
+	nextID      int
+}
+
+type vtimer struct {
+	when    int64
+	period  int64
+	fire    func()
+	stopped bool
+	seq     int
+}
+
+type sendRec struct {
+	val   Value
+	taken bool
+}
 
 type Chan struct {
-	buf    []Value
-	cap    int
-	closed bool
+	buf         []Value
+	cap         int
+	closed      bool
+	sendq       []*sendRec
+	recvWaiters int
 }
 
 type syncObj struct {
@@ -27,9 +66,12 @@ type syncObj struct {
 	readers int
 	count   int64
 	val     Value
+	gen     int64 // sync.Cond generation
 }
 
 type fsNode struct{}
+
+type killSignal struct{}
 
 func (it *Interp) syncOf(p Value) *syncObj {
 	pp, ok := p.(*Value)
@@ -56,11 +98,224 @@ func (it *Interp) resetPathEnv() {
 	it.budget = it.cfg.budget
 	it.vtime = 0
 	it.noIntr = map[string]int{}
+	it.tolerateUnsupported = false
 	it.fsFiles = nil
 	it.openFiles = nil
+	it.uniqueTab = nil
+	it.sched = &Scheduler{}
+	it.cur = nil
+	it.timerObjs = nil
 }
 
-func (it *Interp) yield(fr *frame) {}
+// startMain registers the harness goroutine.
+func (it *Interp) startMain() {
+	g := &Goroutine{id: 0, resume: make(chan struct{}, 1), started: true}
+	it.sched.gs = []*Goroutine{g}
+	it.sched.nextID = 1
+	it.cur = g
+}
+
+// endPath kills every goroutine that is still alive (the program exits when main returns).
+func (it *Interp) endPath() {
+	s := it.sched
+	if s == nil {
+		return
+	}
+	for _, g := range s.gs {
+		if g.id == 0 || g.done || !g.started {
+			continue
+		}
+		g.killed = true
+		g.resume <- struct{}{}
+		<-g.exited
+	}
+	it.cur = nil
+}
+
+func (it *Interp) runnable(g *Goroutine) bool {
+	if g.done {
+		return false
+	}
+	if !it.sched.enabled && g.id != 0 {
+		return false // parked
+	}
+	return g.waiting == nil || g.waiting()
+}
+
+func (it *Interp) fireTimers() {
+	s := it.sched
+	for {
+		fired := false
+		for _, t := range s.timers {
+			if !t.stopped && t.when <= it.vtime {
+				if t.period > 0 {
+					t.when += t.period
+				} else {
+					t.stopped = true
+				}
+				t.fire()
+				fired = true
+			}
+		}
+		if !fired {
+			return
+		}
+	}
+}
+
+func (it *Interp) nextTimer() (int64, bool) {
+	var best int64
+	ok := false
+	for _, t := range it.sched.timers {
+		if !t.stopped && (!ok || t.when < best) {
+			best, ok = t.when, true
+		}
+	}
+	return best, ok
+}
+
+// schedule is called by the running goroutine at a visible operation. If blocked is true the
+// caller has set cur.waiting and cannot continue until its predicate holds.
+func (it *Interp) schedule(blocked bool) {
+	s := it.sched
+	cur := it.cur
+	if cur == nil || it.tolerant {
+		if blocked {
+			it.deadlock("blocking operation during package initialisation")
+		}
+		return
+	}
+	if it.spec > 0 {
+		panic(specAbort{"scheduling point"})
+	}
+	for {
+		it.fireTimers()
+		var cands []*Goroutine
+		curRunnable := !cur.done && (cur.waiting == nil || cur.waiting())
+		if curRunnable {
+			cands = append(cands, cur)
+		}
+		for _, g := range s.gs {
+			if g != cur && it.runnable(g) {
+				cands = append(cands, g)
+			}
+		}
+		if len(cands) == 0 {
+			// everybody is blocked: let virtual time pass
+			if when, ok := it.nextTimer(); ok {
+				if when > it.vtime {
+					it.vtime = when
+				}
+				continue
+			}
+			if cur.done {
+				// the last runnable goroutine ended while main is blocked forever
+				it.sched.abort = pathEnd{reason: "deadlock", detail: "a goroutine ended and all others are blocked"}
+				main := s.gs[0]
+				it.cur = main
+				main.resume <- struct{}{}
+				return
+			}
+			it.deadlock("all goroutines are blocked")
+		}
+		next := cands[0]
+		if len(cands) > 1 {
+			if curRunnable && s.preemptions >= s.bound {
+				next = cur
+			} else {
+				k := it.choose('s', len(cands))
+				next = cands[k]
+				if curRunnable && next != cur {
+					s.preemptions++
+				}
+			}
+		}
+		if next == cur {
+			return
+		}
+		it.switchTo(next)
+		if cur.done {
+			return
+		}
+		if cur.waiting == nil || cur.waiting() {
+			return
+		}
+	}
+}
+
+// switchTo hands the baton to g and parks the caller (unless it is done).
+func (it *Interp) switchTo(g *Goroutine) {
+	cur := it.cur
+	it.cur = g
+	if !g.started {
+		g.started = true
+		go it.goroutineBody(g)
+	} else {
+		g.resume <- struct{}{}
+	}
+	if cur.done {
+		return
+	}
+	<-cur.resume
+	it.cur = cur
+	if cur.killed {
+		panic(killSignal{})
+	}
+	if cur.id == 0 && it.sched.abort != nil {
+		r := it.sched.abort
+		it.sched.abort = nil
+		panic(r)
+	}
+}
+
+func (it *Interp) goroutineBody(g *Goroutine) {
+	defer close(g.exited)
+	defer func() {
+		r := recover()
+		g.done = true
+		if _, ok := r.(killSignal); ok || g.killed {
+			return
+		}
+		if r != nil {
+			// an uncaught panic (or an engine signal) in a goroutine ends the path: hand it to main
+			it.sched.abort = r
+			main := it.sched.gs[0]
+			it.cur = main
+			main.resume <- struct{}{}
+			return
+		}
+		// normal exit: pass the baton on
+		defer func() {
+			if r2 := recover(); r2 != nil {
+				it.sched.abort = r2
+				main := it.sched.gs[0]
+				it.cur = main
+				main.resume <- struct{}{}
+			}
+		}()
+		it.schedule(false)
+	}()
+	it.call(nil, nil, g.fn, g.args)
+}
+
+func (it *Interp) yield(fr *frame) {
+	if it.cur != nil && it.sched != nil && it.sched.enabled && !it.tolerant && it.spec == 0 {
+		it.schedule(false)
+	}
+}
+
+func (it *Interp) blockUntil(pred func() bool) {
+	if pred() {
+		return
+	}
+	if it.cur == nil || it.tolerant {
+		it.deadlock("blocking operation outside a path")
+	}
+	cur := it.cur
+	cur.waiting = pred
+	it.schedule(true)
+	cur.waiting = nil
+}
 
 func (it *Interp) deadlock(what string) {
 	panic(pathEnd{reason: "deadlock", detail: what})
@@ -70,59 +325,103 @@ func (it *Interp) goStmt(fr *frame, fn Value, args []Value) {
 	if it.tolerant {
 		return // goroutines started by package initialisers are not run
 	}
-	it.pendingGo = append(it.pendingGo, pendingGo{fn, args})
-	panic(engineErr("goroutines not supported yet (go %v)", valString(fn)))
-}
-
-type pendingGo struct {
-	fn   Value
-	args []Value
+	if it.spec > 0 {
+		panic(specAbort{"go"})
+	}
+	s := it.sched
+	g := &Goroutine{id: s.nextID, resume: make(chan struct{}, 1), fn: fn, args: args, exited: make(chan struct{})}
+	s.nextID++
+	s.gs = append(s.gs, g)
+	it.stats.goroutines++
+	it.yield(fr)
 }
 
 func (it *Interp) newChan(n int) *Chan { return &Chan{cap: n} }
 
 func (it *Interp) chanSend(fr *frame, ch Value, v Value) {
 	c, _ := ch.(*Chan)
+	it.yield(fr)
 	if c == nil {
-		it.deadlock("send on nil channel")
+		it.blockUntil(func() bool { return false })
 	}
 	if c.closed {
 		panic(it.runtimePanic("closed", "send on closed channel"))
 	}
 	if len(c.buf) < c.cap {
-		old := c.buf
-		it.logUndo(func() { c.buf = old })
-		c.buf = append(append([]Value{}, c.buf...), copyVal(v))
+		it.chanPush(c, copyVal(v))
 		return
 	}
-	it.deadlock("send would block forever")
+	rec := &sendRec{val: copyVal(v)}
+	c.sendq = append(c.sendq, rec)
+	it.logUndo(func() { c.sendq = nil })
+	it.blockUntil(func() bool { return rec.taken || c.closed })
+	if !rec.taken {
+		panic(it.runtimePanic("closed", "send on closed channel"))
+	}
 }
 
-func (it *Interp) chanRecv(fr *frame, ch Value, commaOk bool, t types.Type) Value {
-	c, _ := ch.(*Chan)
-	if c == nil {
-		it.deadlock("receive from nil channel")
-	}
+func (it *Interp) chanPush(c *Chan, v Value) {
+	old := c.buf
+	it.logUndo(func() { c.buf = old })
+	c.buf = append(append([]Value{}, c.buf...), v)
+}
+
+// chanTryRecv takes a value if one is available: (value, ok, ready).
+func (it *Interp) chanTryRecv(c *Chan) (Value, bool, bool) {
 	if len(c.buf) > 0 {
 		v := c.buf[0]
 		old := c.buf
 		it.logUndo(func() { c.buf = old })
-		c.buf = c.buf[1:]
-		if commaOk {
-			return Tuple{v, it.tt.tru}
+		c.buf = append([]Value{}, c.buf[1:]...)
+		// a sender blocked on a full buffer can now deposit its value
+		if len(c.sendq) > 0 {
+			rec := c.sendq[0]
+			c.sendq = c.sendq[1:]
+			rec.taken = true
+			c.buf = append(c.buf, rec.val)
 		}
-		return v
+		return v, true, true
+	}
+	if len(c.sendq) > 0 {
+		rec := c.sendq[0]
+		c.sendq = c.sendq[1:]
+		rec.taken = true
+		return rec.val, true, true
 	}
 	if c.closed {
-		var z Value
+		return nil, false, true
+	}
+	return nil, false, false
+}
+
+func (it *Interp) chanRecv(fr *frame, ch Value, commaOk bool, t types.Type) Value {
+	c, _ := ch.(*Chan)
+	it.yield(fr)
+	if c == nil {
+		it.blockUntil(func() bool { return false })
+	}
+	var v Value
+	var ok bool
+	for {
+		var ready bool
+		v, ok, ready = it.chanTryRecv(c)
+		if ready {
+			break
+		}
+		c.recvWaiters++
+		it.blockUntil(func() bool { return len(c.buf) > 0 || len(c.sendq) > 0 || c.closed })
+		c.recvWaiters--
+	}
+	if !ok {
 		if commaOk {
-			z = it.zero(t.(*types.Tuple).At(0).Type())
-			return Tuple{z, it.tt.fls}
+			return Tuple{it.zero(t.(*types.Tuple).At(0).Type()), it.tt.fls}
 		}
 		return it.zero(t)
 	}
-	it.deadlock("receive would block forever")
-	return nil
+	if commaOk {
+		return Tuple{v, it.tt.tru}
+	}
+	return v
 }
 
 func (it *Interp) chanClose(fr *frame, ch Value) {
@@ -135,10 +434,10 @@ func (it *Interp) chanClose(fr *frame, ch Value) {
 	}
 	it.logUndo(func() { c.closed = false })
 	c.closed = true
+	it.yield(fr)
 }
 
 func (it *Interp) selectStmt(fr *frame, instr *ssa.Select) Value {
-	// sequential semantics: first ready case in order; default; else deadlock
 	mk := func(chosen int, recvOk bool, recvIdx int, recv Value) Value {
 		r := Tuple{it.mkInt(chosen), it.tt.Bool(recvOk)}
 		for i, st := range instr.States {
@@ -152,43 +451,78 @@ func (it *Interp) selectStmt(fr *frame, instr *ssa.Select) Value {
 		}
 		return r
 	}
+	chans := make([]*Chan, len(instr.States))
 	for i, st := range instr.States {
-		c, _ := fr.get(st.Chan).(*Chan)
-		if c == nil {
+		chans[i], _ = fr.get(st.Chan).(*Chan)
+	}
+	ready := func() []int {
+		var r []int
+		for i, st := range instr.States {
+			c := chans[i]
+			if c == nil {
+				continue
+			}
+			if st.Dir == types.RecvOnly {
+				if len(c.buf) > 0 || len(c.sendq) > 0 || c.closed {
+					r = append(r, i)
+				}
+			} else if c.closed || len(c.buf) < c.cap || (c.cap == 0 && c.recvWaiters > 0) {
+				r = append(r, i)
+			}
+		}
+		return r
+	}
+	it.yield(fr)
+	for {
+		rs := ready()
+		if len(rs) == 0 {
+			if !instr.Blocking {
+				return mk(-1, false, -1, nil)
+			}
+			for i, st := range instr.States {
+				if st.Dir == types.RecvOnly && chans[i] != nil {
+					chans[i].recvWaiters++
+				}
+			}
+			it.blockUntil(func() bool { return len(ready()) > 0 })
+			for i, st := range instr.States {
+				if st.Dir == types.RecvOnly && chans[i] != nil {
+					chans[i].recvWaiters--
+				}
+			}
 			continue
 		}
-		if st.Dir == types.RecvOnly {
-			if len(c.buf) > 0 {
-				v := c.buf[0]
-				old := c.buf
-				it.logUndo(func() { c.buf = old })
-				c.buf = c.buf[1:]
-				return mk(i, true, i, v)
-			}
-			if c.closed {
-				return mk(i, false, -1, nil)
-			}
-		} else {
-			if c.closed {
-				panic(it.runtimePanic("closed", "send on closed channel"))
-			}
-			if len(c.buf) < c.cap {
-				old := c.buf
-				it.logUndo(func() { c.buf = old })
-				c.buf = append(append([]Value{}, c.buf...), copyVal(fr.get(st.Send)))
-				return mk(i, false, -1, nil)
-			}
+		k := rs[0]
+		if len(rs) > 1 {
+			k = rs[it.choose('s', len(rs))]
 		}
+		st := instr.States[k]
+		c := chans[k]
+		if st.Dir == types.RecvOnly {
+			v, ok, got := it.chanTryRecv(c)
+			if !got {
+				continue
+			}
+			if !ok {
+				return mk(k, false, -1, nil)
+			}
+			return mk(k, true, k, v)
+		}
+		if c.closed {
+			panic(it.runtimePanic("closed", "send on closed channel"))
+		}
+		val := copyVal(fr.get(st.Send))
+		if len(c.buf) < c.cap {
+			it.chanPush(c, val)
+		} else {
+			// a receiver is waiting: leave the value for it
+			c.sendq = append(c.sendq, &sendRec{val: val})
+		}
+		return mk(k, false, -1, nil)
 	}
-	if !instr.Blocking {
-		return mk(-1, false, -1, nil)
-	}
-	it.deadlock("select would block forever")
-	return nil
 }
 
 func (it *Interp) permute(ents []*mapEntry) []*mapEntry {
-	// fork over permutations by successive choices
 	rest := append([]*mapEntry{}, ents...)
 	var out []*mapEntry
 	for len(rest) > 1 {
@@ -201,14 +535,96 @@ func (it *Interp) permute(ents []*mapEntry) []*mapEntry {
 
 func sortEntries(ents []*mapEntry) []*mapEntry { return ents }
 
+// ---- timers ----
+
+func (it *Interp) addTimer(d, period int64, fire func()) *vtimer {
+	if d < 0 {
+		d = 0
+	}
+	t := &vtimer{when: it.vtime + d, period: period, fire: fire, seq: len(it.sched.timers)}
+	it.sched.timers = append(it.sched.timers, t)
+	sort.SliceStable(it.sched.timers, func(i, j int) bool { return it.sched.timers[i].when < it.sched.timers[j].when })
+	return t
+}
+
+func (it *Interp) timeValue() Value {
+	// a time.Time for "now" on the virtual clock: built by the real time.Now over the time.now intrinsic
+	return it.call(it.curFrame(), nil, it.funcByName("time.Now"), nil)
+}
+
+func (it *Interp) timerStruct(typeName string, c *Chan) *Value {
+	pkg := it.prog.ImportedPackage("time")
+	tt := pkg.Type(typeName).Type()
+	st := it.zero(tt).(Struct)
+	st[0] = c // field C
+	var cell Value = st
+	return &cell
+}
+
+func durArg(it *Interp, v Value) int64 {
+	d, ok := concInt(v)
+	if !ok {
+		panic(engineErr("symbolic duration reaches a timer"))
+	}
+	return d
+}
+
 func init() {
+	// ---- concurrency control from the harness ----
+	reg(rtPkg+"Concurrent", func(fr *frame, args []Value) Value {
+		it := fr.it
+		it.sched.enabled = true
+		it.sched.bound = argInt(args[0])
+		return nil
+	})
+	reg(rtPkg+"Yield", func(fr *frame, args []Value) Value { fr.it.yield(fr); return nil })
+	// DrainGoroutines lets every goroutine started so far run until it blocks or ends (the caller
+	// waits meanwhile); scheduling among them is explored, the caller is not preempted afterwards.
+	reg(rtPkg+"DrainGoroutines", func(fr *frame, args []Value) Value {
+		it := fr.it
+		if it.cur == nil {
+			return nil
+		}
+		was := it.sched.enabled
+		it.sched.enabled = true
+		me := it.cur
+		it.blockUntil(func() bool {
+			for _, g := range it.sched.gs {
+				if g != me && !g.done && (g.waiting == nil || g.waiting()) {
+					return false
+				}
+			}
+			return true
+		})
+		it.sched.enabled = was
+		return nil
+	})
+	reg(rtPkg+"AdvanceTime", func(fr *frame, args []Value) Value {
+		it := fr.it
+		d := durArg(it, args[0])
+		target := it.vtime + d
+		// let every timer up to the target fire, giving other goroutines the chance to run
+		for {
+			when, ok := it.nextTimer()
+			if !ok || when > target {
+				break
+			}
+			it.vtime = when
+			it.fireTimers()
+			it.yield(fr)
+		}
+		it.vtime = target
+		it.yield(fr)
+		return nil
+	})
+	reg("runtime.Goexit", func(fr *frame, args []Value) Value { panic(killSignal{}) })
+
 	// ---- sync ----
 	reg("(*sync.Mutex).Lock", func(fr *frame, args []Value) Value {
-		o := fr.it.syncOf(args[0])
-		if o.locked {
-			fr.it.deadlock("sync.Mutex.Lock on a mutex that is already held and never released")
-		}
-		fr.it.logUndo(func() { o.locked = false })
+		it := fr.it
+		o := it.syncOf(args[0])
+		it.yield(fr)
+		it.blockUntil(func() bool { return !o.locked })
 		o.locked = true
 		return nil
 	})
@@ -226,13 +642,14 @@ func init() {
 			panic(fr.it.runtimePanic("fatal", "fatal error: sync: unlock of unlocked mutex"))
 		}
 		o.locked = false
+		fr.it.yield(fr)
 		return nil
 	})
 	reg("(*sync.RWMutex).Lock", func(fr *frame, args []Value) Value {
-		o := fr.it.syncOf(args[0])
-		if o.locked || o.readers > 0 {
-			fr.it.deadlock("sync.RWMutex.Lock on a held mutex")
-		}
+		it := fr.it
+		o := it.syncOf(args[0])
+		it.yield(fr)
+		it.blockUntil(func() bool { return !o.locked && o.readers == 0 })
 		o.locked = true
 		return nil
 	})
@@ -242,13 +659,14 @@ func init() {
 			panic(fr.it.runtimePanic("fatal", "fatal error: sync: Unlock of unlocked RWMutex"))
 		}
 		o.locked = false
+		fr.it.yield(fr)
 		return nil
 	})
 	reg("(*sync.RWMutex).RLock", func(fr *frame, args []Value) Value {
-		o := fr.it.syncOf(args[0])
-		if o.locked {
-			fr.it.deadlock("sync.RWMutex.RLock on a write-held mutex")
-		}
+		it := fr.it
+		o := it.syncOf(args[0])
+		it.yield(fr)
+		it.blockUntil(func() bool { return !o.locked })
 		o.readers++
 		return nil
 	})
@@ -258,31 +676,49 @@ func init() {
 			panic(fr.it.runtimePanic("fatal", "fatal error: sync: RUnlock of unlocked RWMutex"))
 		}
 		o.readers--
+		fr.it.yield(fr)
 		return nil
 	})
+	wgPanic := func(it *Interp) *targetPanic {
+		return it.explicitPanic(Iface{t: types.Typ[types.String], v: it.mkStr("sync: negative WaitGroup counter")})
+	}
 	reg("(*sync.WaitGroup).Add", func(fr *frame, args []Value) Value {
 		o := fr.it.syncOf(args[0])
 		o.count += int64(argInt(args[1]))
 		if o.count < 0 {
-			panic(fr.it.explicitPanic(Iface{t: types.Typ[types.String], v: fr.it.mkStr("sync: negative WaitGroup counter")}))
+			panic(wgPanic(fr.it))
 		}
+		fr.it.yield(fr)
 		return nil
 	})
 	reg("(*sync.WaitGroup).Done", func(fr *frame, args []Value) Value {
 		o := fr.it.syncOf(args[0])
 		o.count--
 		if o.count < 0 {
-			panic(fr.it.explicitPanic(Iface{t: types.Typ[types.String], v: fr.it.mkStr("sync: negative WaitGroup counter")}))
+			panic(wgPanic(fr.it))
 		}
+		fr.it.yield(fr)
 		return nil
 	})
 	reg("(*sync.WaitGroup).Wait", func(fr *frame, args []Value) Value {
-		o := fr.it.syncOf(args[0])
-		if o.count > 0 {
-			fr.it.deadlock("WaitGroup.Wait with positive counter and no other goroutine")
-		}
+		it := fr.it
+		o := it.syncOf(args[0])
+		it.yield(fr)
+		it.blockUntil(func() bool { return o.count <= 0 })
 		return nil
 	})
+	reg("(*sync.Cond).Wait", func(fr *frame, args []Value) Value {
+		it := fr.it
+		o := it.syncOf(args[0])
+		l := *it.structFieldPtr(args[0], "sync", "Cond", "L")
+		it.invokeMethod(fr, l, "Unlock")
+		gen := o.gen
+		it.blockUntil(func() bool { return o.gen != gen })
+		it.invokeMethod(fr, l, "Lock")
+		return nil
+	})
+	reg("(*sync.Cond).Signal", func(fr *frame, args []Value) Value { fr.it.syncOf(args[0]).gen++; fr.it.yield(fr); return nil })
+	reg("(*sync.Cond).Broadcast", func(fr *frame, args []Value) Value { fr.it.syncOf(args[0]).gen++; fr.it.yield(fr); return nil })
 	reg("(*sync.Pool).Get", func(fr *frame, args []Value) Value {
 		p := args[0].(*Value)
 		st := (*p).(Struct)
@@ -367,6 +803,19 @@ func init() {
 		}
 		return old
 	})
+	reg("(*sync/atomic.Value).CompareAndSwap", func(fr *frame, args []Value) Value {
+		it := fr.it
+		o := it.syncOf(args[0])
+		var cur Value = Iface{}
+		if o.val != nil {
+			cur = o.val
+		}
+		if eq := it.equals(cur, args[1]); eq.Op == OpConst && eq.Val != 0 {
+			o.val = args[2]
+			return it.tt.tru
+		}
+		return it.tt.fls
+	})
 
 	// ---- time ----
 	reg("time.now", func(fr *frame, args []Value) Value {
@@ -378,13 +827,105 @@ func init() {
 		return fr.it.tt.Const(64, uint64(1_000_000+fr.it.vtime))
 	})
 	reg("time.Sleep", func(fr *frame, args []Value) Value {
-		d, ok := concInt(args[0])
-		if !ok {
-			panic(engineErr("time.Sleep with symbolic duration"))
+		it := fr.it
+		d := durArg(it, args[0])
+		if d <= 0 {
+			it.yield(fr)
+			return nil
 		}
-		if d > 0 {
-			fr.it.vtime += d
+		if it.cur == nil || it.tolerant {
+			it.vtime += d
+			return nil
 		}
+		woken := false
+		it.addTimer(d, 0, func() { woken = true })
+		it.blockUntil(func() bool { return woken })
 		return nil
 	})
+	newTimer := func(fr *frame, d int64, period int64, typeName string) Value {
+		it := fr.it
+		c := it.newChan(1)
+		p := it.timerStruct(typeName, c)
+		t := it.addTimer(d, period, func() {
+			if len(c.buf) < c.cap {
+				c.buf = append(c.buf, it.timeValue())
+			}
+		})
+		if it.timerObjs == nil {
+			it.timerObjs = map[*Value]*vtimer{}
+		}
+		it.timerObjs[p] = t
+		return p
+	}
+	reg("time.NewTimer", func(fr *frame, args []Value) Value {
+		return newTimer(fr, durArg(fr.it, args[0]), 0, "Timer")
+	})
+	reg("time.After", func(fr *frame, args []Value) Value {
+		p := newTimer(fr, durArg(fr.it, args[0]), 0, "Timer").(*Value)
+		return (*p).(Struct)[0]
+	})
+	reg("time.NewTicker", func(fr *frame, args []Value) Value {
+		d := durArg(fr.it, args[0])
+		if d <= 0 {
+			panic(fr.it.explicitPanic(Iface{t: types.Typ[types.String], v: fr.it.mkStr("non-positive interval for NewTicker")}))
+		}
+		return newTimer(fr, d, d, "Ticker")
+	})
+	reg("time.Tick", func(fr *frame, args []Value) Value {
+		d := durArg(fr.it, args[0])
+		if d <= 0 {
+			return (*Chan)(nil)
+		}
+		p := newTimer(fr, d, d, "Ticker").(*Value)
+		return (*p).(Struct)[0]
+	})
+	reg("time.AfterFunc", func(fr *frame, args []Value) Value {
+		it := fr.it
+		f := args[1]
+		p := it.timerStruct("Timer", nil)
+		t := it.addTimer(durArg(it, args[0]), 0, func() {
+			s := it.sched
+			g := &Goroutine{id: s.nextID, resume: make(chan struct{}, 1), fn: f, exited: make(chan struct{})}
+			s.nextID++
+			s.gs = append(s.gs, g)
+		})
+		if it.timerObjs == nil {
+			it.timerObjs = map[*Value]*vtimer{}
+		}
+		it.timerObjs[p] = t
+		return p
+	})
+	stop := func(fr *frame, args []Value) Value {
+		it := fr.it
+		p, _ := args[0].(*Value)
+		t := it.timerObjs[p]
+		if t == nil {
+			return it.tt.fls
+		}
+		was := !t.stopped
+		t.stopped = true
+		return it.tt.Bool(was)
+	}
+	reg("(*time.Timer).Stop", stop)
+	reg("(*time.Ticker).Stop", func(fr *frame, args []Value) Value { stop(fr, args); return nil })
+	reset := func(fr *frame, args []Value) Value {
+		it := fr.it
+		p, _ := args[0].(*Value)
+		t := it.timerObjs[p]
+		if t == nil {
+			return it.tt.fls
+		}
+		was := !t.stopped
+		d := durArg(it, args[1])
+		t.stopped = false
+		t.when = it.vtime + d
+		if t.period > 0 {
+			t.period = d
+		}
+		return it.tt.Bool(was)
+	}
+	reg("(*time.Timer).Reset", reset)
+	reg("(*time.Ticker).Reset", func(fr *frame, args []Value) Value { reset(fr, args); return nil })
 }
+
+var _ = fmt.Sprint
